@@ -212,6 +212,17 @@ CLAIMS = {
               "within the discretisation tolerance - checked on the running code for all axis permutations and mirrorings "
               "(tolerance one cell crossing time; rounding-level for 2D homogeneous equal spacing and for the interpolators). "
               "Known finding: 3D homogeneous equal-spacing fields are not permutation-invariant to rounding.")),
+    "C19": dict(
+        category="translation_validation", design_ref="DESIGN.md §8 C19",
+        technique="three-way translation validation: JIT build vs the same source run by the plain interpreter (separate processes) vs the Lean Float model, on generated inputs for every kernel; AST-extracted signature table; omega obligations for i4 index widths",
+        text=("The compiled build is compared with the interpreted source on the same generated inputs, in separate processes, for "
+              "the solvers (all source classes), interpolators (all boundary classes, NaN/fill), ray tracers (both modes), the "
+              "small helpers and the public API with Fortran-ordered / strided / read-only / transposed inputs: results within "
+              "1e-9 relative, same exception class, same NaN/fill pattern; the Lean Float model (bit-identical to the "
+              "interpreter) is the third party. The explicit signatures are extracted from the AST on every run (every float "
+              "parameter f8, every index i4, layout-free arrays) and the regenerated Lean index obligations show that every "
+              "index lies in [0, extent), hence fits i4. Nothing about LLVM is proved. Known finding: isolated gradient "
+              "directions differ between the builds (operator ties decided by the last bit).")),
 }
 
 WIP = "check not registered yet in this revision (model/theorems under construction); see DESIGN.md §8"
